@@ -94,18 +94,51 @@ fn run_iterator(case: &J, path: &std::path::Path) -> (Vec<Vec<u8>>, bool, Vec<St
     (out, failed, s.problems.clone())
 }
 
+/// 'a' (97) stands for a run of ordinary bytes: the same behaviour with every 'a' written as `unit` bytes (content, chunk sizes and
+/// expected lines scaled accordingly). Deliveries and retry points do not depend on the run length for an append-only file.
+fn expanded(case: &J, unit: usize) -> J {
+    let content = bytes_of(&case["content"]);
+    let w = |b: u8| if b == 97 { unit } else { 1 };
+    let scale = |bytes: &[u8]| -> Vec<u8> { let mut o = Vec::new(); for b in bytes { if *b == 97 { o.extend(std::iter::repeat(b'a').take(unit)); } else { o.push(*b); } } o };
+    let pre = case["pre"].as_u64().unwrap() as usize;
+    let mut c = case.clone();
+    c["content"] = jbytes(&scale(&content));
+    c["pre"] = json!(content[..pre].iter().map(|b| w(*b)).sum::<usize>());
+    c["cap"] = json!(8192);
+    let mut pos = pre;
+    let mut hist = Vec::new();
+    for e in case["hist"].as_array().unwrap() {
+        if e["e"] == "A" { let k = e["n"].as_u64().unwrap() as usize; let n: usize = content[pos..pos + k].iter().map(|b| w(*b)).sum(); pos += k; hist.push(json!({"e": "A", "n": n})); }
+        else { hist.push(e.clone()); }
+    }
+    c["hist"] = J::Array(hist);
+    c["delivered"] = J::Array(case["delivered"].as_array().unwrap().iter().map(|l| jbytes(&scale(&bytes_of(l)))).collect());
+    c
+}
+
 pub fn replay(cases: &[J]) -> J {
     let dir = scratch();
     let path = dir.join("follow.log");
     let mut rep = Report::new("follow");
-    for case in cases {
-        tick(case);
+    let mut all: Vec<J> = Vec::new();
+    for (i, case) in cases.iter().enumerate() {
+        all.push(case.clone());
+        // every 97th behaviour that contains an 'a' is also run with long runs (beyond 64 KiB and the BufReader capacity)
+        if i % 97 == 0 && bytes_of(&case["content"]).contains(&97) && !case["failed"].as_bool().unwrap() {
+            for unit in [8193usize, 70000] { all.push(expanded(case, unit)); }
+        }
+    }
+    for case in &all {
+        tick(&json!({"pre": case["pre"], "cap": case["cap"], "hist": case["hist"]}));
         let (delivered, failed, problems) = run_iterator(case, &path);
         let exp_delivered: Vec<Vec<u8>> = case["delivered"].as_array().unwrap().iter().map(bytes_of).collect();
         let exp_failed = case["failed"].as_bool().unwrap();
-        let observed = json!({"delivered": delivered.iter().map(|l| jbytes(l)).collect::<Vec<_>>(), "failed": failed, "problems": problems});
+        let big = bytes_of(&case["content"]).len() > 200;
+        let show = |ls: &Vec<Vec<u8>>| -> J { if big { json!(ls.iter().map(|l| format!("{} bytes", l.len())).collect::<Vec<_>>()) } else { json!(ls.iter().map(|l| jbytes(l)).collect::<Vec<_>>()) } };
+        let observed = json!({"delivered": show(&delivered), "failed": failed, "problems": problems});
         if delivered != exp_delivered || failed != exp_failed || !problems.is_empty() {
-            rep.mismatch(case, json!({"delivered": case["delivered"], "failed": exp_failed}), observed, "follow iterator differs from Follow.tla");
+            let shown = if big { json!({"content_bytes": bytes_of(&case["content"]).len(), "pre": case["pre"], "head": case["head"], "cap": case["cap"], "hist": case["hist"]}) } else { case.clone() };
+            rep.mismatch(&shown, json!({"delivered": show(&exp_delivered), "failed": exp_failed}), observed, "follow iterator differs from Follow.tla");
         } else {
             if exp_failed { rep.dev_witness("FollowUtf8Split", case); rep.count("dev_FollowUtf8Split"); }
             let key = format!("{}|{}|{}|{}|{}", case["content"], case["pre"], case["head"], case["cap"], case["hist"]);
